@@ -29,6 +29,7 @@ def run(ctx, rep):
     e5_locks.check_marking(facts, rep)
     e5_locks.check_validation_predicate(facts, rep)
     e5_locks.check_candidate_predicate(facts, rep)
+    e5_locks.check_head_col(facts, rep)
     sites = [s for s in summ.rayon_sites if s[0].startswith('yui_matrix::sparse::pivot')]
     rep.floor('E5 rayon entry sites in sparse::pivot', len(sites), 2)
     rep.inventory['L4 rayon entry sites (workspace)'] = sorted({'%s @ %s' % (s[0], s[1]) for s in summ.rayon_sites})
